@@ -8,6 +8,7 @@ CONSTANTS
   Stops = {TRUE,FALSE}
   Modes = {"seq","par"}
   HookModes = {"all"}
+  Logging = FALSE
   Deviations = {}
 CHECK_DEADLOCK FALSE
 PROPERTY Termination
